@@ -38,7 +38,7 @@ def gen_example(rnd, idx):
 
 GEN = {"task": plangen.gen_task, "sync": plangen.gen_sync, "cyc": plangen.gen_cyc, "sx": plangen.gen_sx, "sv": plangen.gen_sv, "rr": plangen.gen_rr, "tl": plangen.gen_tl, "rules": plangen.gen_rules, "examples": gen_example}
 # which families each property runs (the others' failures are counted, not reported)
-FAMILIES = {"C01": ["sv", "rr", "rules", "sx", "sync", "tl"], "C02": ["sv", "rr", "rules", "sx", "cyc", "sync", "task"], "C03": ["rules", "sv", "cyc", "task", "examples"], "C04": ["sv", "sx", "sync", "task", "examples"], "C05": ["rr", "sx", "task", "examples"],
+FAMILIES = {"C01": ["sv", "rr", "rules", "sx", "sync", "tl"], "C02": ["sv", "rr", "rules", "sx", "cyc", "sync", "task"], "C03": ["rules", "sv", "cyc", "task", "tl", "examples"], "C04": ["sv", "sx", "sync", "task", "examples"], "C05": ["rr", "sx", "task", "examples"],
             "C06": ["tl", "sv", "rr", "sx", "sync", "task", "examples"],
             "C16": ["sv", "rr", "tl", "rules", "sx", "cyc", "sync", "task"]}
 
@@ -434,6 +434,24 @@ def check_rule_table(case, plan, out):
     if not table or not g:
         return fails, 0
     goal_atoms = {f["data"]["atom"] for f in g["flaws"] if f["data"].get("type") == "goal"}
+    # sub-goals / facts the rule of an active goal must have created (children of the goal's activating resolver in the causal graph)
+    sub = case.get("subgoal_table") or {}
+    ress = {r["id"]: r for r in g["resolvers"]}
+    for f in g["flaws"]:
+        d = f["data"]
+        if d.get("type") != "goal" or f["phi_val"] != "T":
+            continue
+        atom = plan.sol.atoms.get(d["atom"])
+        pname = atom["predicate"].split(":")[-1] if atom else None       # (the listener's flaw data carries unqualified predicate names)
+        if atom is None or atom["state"] != "Active" or pname not in sub:
+            continue
+        act = [ress[r] for r in f["resolvers"] if ress[r]["rho_val"] == "T" and ress[r]["data"].get("type") == "activate"]
+        if not act:
+            continue
+        kids = sorted(c["data"].get("predicate") for c in g["flaws"] if act[0]["id"] in c["causes"] and c["data"].get("type") in ("fact", "goal"))
+        n += 1
+        if kids != sorted(sub[pname]):
+            fails.append(("C03", "rule-subgoals-missing/" + pname, "active goal of %s: its rule creates %s but the plan has %s below it" % (atom["predicate"], sorted(sub[pname]), kids)))
     for a in plan.atoms:
         if a["state"] != "Active" or a["id"] not in goal_atoms or a["predicate"] not in table:
             continue
@@ -511,7 +529,12 @@ def work(exes, family, start, n, owner):
                 part.count("%s: solutions with multi-segment timelines" % family)
         else:
             msg = out.read_error or out.solve_error or ""
-            if case.get("planted") and (st == "unsolvable" or "unsolvable" in msg or "inconsistent" in msg):
+            if case.get("planted") and case.get("derate") and (st == "unsolvable" or "unsolvable" in msg or "inconsistent" in msg):
+                # recorded finding K4: only problems whose resource capacity is a non-constant expression, only the configurations that check
+                # inconsistencies at every step; anything else keeps the general key below
+                fails.append(("C02", "task/non-constant-capacity-declared-unsolvable" if "-on-" in variant else "task/planted-problem-declared-unsolvable",
+                              "a problem whose resource capacity is '<constant> - reserve' was built around a feasible plan but is declared unsolvable (%s) in configuration %s" % (msg or st, variant)))
+            elif case.get("planted") and (st == "unsolvable" or "unsolvable" in msg or "inconsistent" in msg):
                 fails.append(("C02", "%s/planted-problem-declared-unsolvable" % family, "the problem was built around a feasible plan but is declared unsolvable (%s)" % (msg or st)))
             elif "spec" in case and (st == "unsolvable" or "unsolvable" in msg or "inconsistent" in msg):
                 if owner == "C02":
